@@ -369,6 +369,14 @@ func render(sc Script, prog string) string {
 			sb.WriteString("defer\n")
 		case "deferfail":
 			sb.WriteString("deferfail\n")
+		case "bgwriter":
+			// a background command that keeps (re)creating a directory and a file below $WORK: it has to be stopped
+			// before the work directory is removed, or it brings part of it back
+			// (this binary itself, so that there are no grandchildren that could outlive it)
+			sb.WriteString("exec " + selfExe + " bgwriter $WORK/bgw &\npids\n")
+		case "envpwd":
+			// the script assigns PWD itself: executed programs still get the script's environment, not the host's
+			sb.WriteString("env PWD=/set/by/the/script\n")
 		case "setupfail":
 			sb.WriteString("# Setup fails for this script\n")
 		case "bgdup":
@@ -697,7 +705,15 @@ func withSolo(rec *RunRec) *RunRec {
 	return rec
 }
 
+var selfExe = func() string { p, _ := os.Executable(); return p }()
+
 func main() {
+	if len(os.Args) == 3 && os.Args[1] == "bgwriter" {
+		for {
+			os.MkdirAll(filepath.Join(os.Args[2], "d"), 0o777)
+			os.WriteFile(filepath.Join(os.Args[2], "d", "f"), []byte("x\n"), 0o666)
+		}
+	}
 	mode := flag.String("mode", "dfs", "replay | dfs | random | free")
 	cfgs := flag.String("configs", "", "")
 	cases := flag.String("cases", "", "")
